@@ -314,6 +314,21 @@ class Ctx:
             it, p = running.pop(0)
             out, err = p.communicate()
             results.append((it, p.returncode, out, err))
+        # a coqc run that hit its wall-clock limit (machine under load) is repeated once, alone,
+        # with four times the limit, before anything is concluded from it
+        retried = []
+        for (it, rc, out, err) in results:
+            if rc in (124, 137, -9):
+                self.log("coqc hit its %ds limit on %s; repeating it alone with %ds" % (
+                    timeout, os.path.basename(it[1]), 4 * timeout))
+                p = subprocess.Popen(["timeout", str(4 * timeout), "coqc"] + QFLAGS + ["-o", it[1] + "o", it[1]],
+                                     cwd=COQ, stdout=subprocess.PIPE, stderr=subprocess.PIPE, text=True)
+                out, err = p.communicate()
+                rc = p.returncode
+                if rc in (124, 137, -9):
+                    err = (err or "") + "\ncoqc did not finish within %d s" % (4 * timeout)
+            retried.append((it, rc, out, err))
+        results = retried
         failing = []
         for (ci, fn, part), rc, out, err in results:
             if rc != 0:
